@@ -94,7 +94,7 @@ def expected_tree(spec: T.Dict[str, T.Any], destdir: str, opts: T.Dict[str, T.An
         return (0o777 if srcexec else 0o666) & ~umask
 
     # order of the installer: subdirs, (targets), headers, man, emptydir, data, symlinks
-    order = {'subdir': 0, 'headers': 2, 'man': 3, 'emptydir': 4, 'data': 5, 'symlink': 6}
+    order = {'subdir': 0, 'ctarget': 1, 'headers': 2, 'man': 3, 'emptydir': 4, 'data': 5, 'symlink': 6}
     for rule in sorted(spec['rules'], key=lambda r: order[r['kind']]):
         k = rule['kind']
         if k == 'data':
@@ -107,6 +107,13 @@ def expected_tree(spec: T.Dict[str, T.Any], destdir: str, opts: T.Dict[str, T.An
                 dst = os.path.join(resolve(d), name)
                 t.add_parents(os.path.dirname(dst), dirmode, destdir)
                 t.add_file(dst, fmode(f.get('exec', False), rule.get('mode')), sha(content_of(f['name'])))
+        elif k == 'ctarget':
+            # an installed custom_target output (a file produced in the build directory)
+            if not wanted(rule, rule.get('tag')):
+                continue
+            dst = os.path.join(resolve(rule['dir']), rule['name'])
+            t.add_parents(os.path.dirname(dst), dirmode, destdir)
+            t.add_file(dst, fmode(rule.get('exec', False), rule.get('mode')), sha(content_of('ctarget:' + rule['name'])))
         elif k == 'headers':
             if not wanted(rule, 'devel'):
                 continue
